@@ -25,6 +25,7 @@ func TestMain(m *testing.M) {
 	vh.Assume("a DONE-family package with status 0 only ends a response; all packets of a response are delivered before the consumer reads (the concurrent case is C12/C13); non-informational EED only between statements")
 	vh.Rule("also: Info.DebugLogPackages is on in a quarter of the cases (every package is printed while it is sent / received)")
 	vh.QuietLog()
+	vh.Rule("also: a callback that cancels the context of its own call and then fails")
 	vh.Main(m, "C03")
 }
 
